@@ -452,10 +452,17 @@ def compile_ast(
                 df = df.join(right_df, how="cross")
 
             else:
+                left_keys = [compile_col_expr(col, name_in_df) for col in left_on]
+                right_keys = [compile_col_expr(col, name_in_df) for col in right_on]
+                # keys of different types (Int64 == Float64) are compared in their common type
+                for i, (lcol, rcol) in enumerate(zip(left_on, right_on, strict=True)):
+                    ltype, rtype = types.without_const(lcol.dtype()), types.without_const(rcol.dtype())
+                    if ltype != rtype and (common := polars_type(types.lca_type([ltype, rtype]))) is not None:
+                        left_keys[i], right_keys[i] = left_keys[i].cast(common), right_keys[i].cast(common)
                 df = df.join(
                     right_df,
-                    left_on=[compile_col_expr(col, name_in_df) for col in left_on],
-                    right_on=[compile_col_expr(col, name_in_df) for col in right_on],
+                    left_on=left_keys,
+                    right_on=right_keys,
                     how=nd.how,
                     validate=nd.validate,
                     coalesce=False,
